@@ -162,6 +162,23 @@ func (s *scen) tagMonitor(st *chainsim.Step, v func(key, what string)) {
 			st.Tag("challenge:passed")
 		case fn == "challenge_response" && strings.Contains(out, "Failed"):
 			st.Tag("challenge:failed")
+		case fn == "commit_connection":
+			// was the token move clamped (by the write pool on upload, by the blobber value on delete)?
+			pre, post := s.view(st.Pre), s.view(st.Post)
+			id := targetAlloc(st.Txn)
+			if a, b := pre.allocs[id], post.allocs[id]; a != nil && b != nil {
+				if a.WritePool > 0 && b.WritePool == 0 && b.MovedToChallenge > a.MovedToChallenge {
+					st.Tag("upload:emptied-write-pool(clamped)")
+				}
+				if a.WritePool == 0 && b.UsedSize >= a.UsedSize && b.MovedToChallenge == a.MovedToChallenge && strings.Contains(st.Action.Name, "size=+") {
+					st.Tag("upload:with-empty-write-pool(moves-0)")
+				}
+				for i, d := range b.Blobbers {
+					if i < len(a.Blobbers) && a.Blobbers[i].Integral > 0 && d.Integral == 0 && b.MovedBack > a.MovedBack {
+						st.Tag("delete:took-whole-blobber-value(clamped)")
+					}
+				}
+			}
 		case fn == "generate_challenge":
 			pre, post := s.view(st.Pre), s.view(st.Post)
 			a, b := int64(0), int64(0)
